@@ -140,7 +140,13 @@ CHECKS = {
          "declarations and the file's lines. Further: the clock symbol rises at 100t and falls at 100t+50 exactly once per cycle, signals sharing a net read equal values, "
          "to_vcd_str is injective and parses back, symbols are distinct, the text-wave record parses back to the samples. Tied to /repo by differential execution on generated "
          "hierarchical RTL designs simulated with DefaultPassGroup(vcdwave=..., textwave=True): the file, parsed by an independent reader, must equal the model's dump token for "
-         "token, and a Python hold-until-changed replay must equal the values sampled at the dump point for every signal of every component.",
+         "token, and a Python hold-until-changed replay must equal the values sampled at the dump point for every signal of every component. The part of make_vcd_func that decides WHAT is "
+         "dumped is inside the model: trimLoop / declareAll / netTable (Model/VCD.lean) take the value nets in the DSL's enumeration order with members tagged whole signal / s.clk / slice-bit-field / "
+         "constant and return the kept nets, the clock index and every signal's symbol; Props/C16n.lean (15 theorems) proves for every order and any number of dropped nets that the clock index is the "
+         "position of the s.clk net among the KEPT nets (clock_index, clock_index_skips_dropped), that a net without a whole signal changes nothing, that every declared signal gets exactly one symbol and "
+         "two signals share a symbol iff they share a net, and that the resulting design satisfies the side condition of replay_dump (table_replay_dump / table_replay_signal); compared on every design "
+         "with the $var lines, header value lines and the clock_symbol / net_details of the real dump function. New streams: hierarchical designs with nets made only of slices / bits / fields / constants "
+         "on both sides of the clock net, and groups of 2-4 waveform simulators alive in one process ticked in interleaved orders (each VCD, text-wave record and print_textwave() output must be its own).",
          "The proof is about the net-level model; how a design becomes the net table is read back from the file header and cross-checked against get_all_value_nets(). The main "
          "theorem carries the hypothesis QuirkSafe (equal defaults on equal-width neighbouring nets behind the clock) because the model reproduces the last_values indexing slip of "
          "dump_vcd_inner; it is discharged for all-zero defaults (the only case in pymtl3) and shown necessary by quirk_needs_equal_defaults. PrintTextWavePass modelled only as "
